@@ -1,4 +1,5 @@
 import MptModel.Impl.Nodes
+import MptModel.Impl.NodesRun
 import MptModel.Spec.Forest
 import Driver.Util
 namespace Driver.Node
@@ -92,6 +93,19 @@ def finish (s : St) (r : Res Store) (sp' : Forest.St) (ret : String := "ptr") : 
 
 def precond (s : St) : St × String := (s, line "precond" s.m "-" "precond" s.sp)
 
+/-- the specification state with the next handle = record count, as `runOp` uses it -/
+def specOf (s : St) : Forest.St := { s.sp with next := s.m.nodes.length }
+
+/-- the operations of the history language go through `Mpt.Nodes.runOp`, the function `history_wf` is about;
+    `spRes` = what the specification says about the call (`none`: precondition not met, both drivers skip it) -/
+def viaRun (s : St) (op : NOp) (spRes : Option Forest.St) (ret : NSt → String) (word : String := "ok") : St × String :=
+  match spRes with
+  | none => precond s
+  | some sp' =>
+    match runOp { m := s.m, sp := s.sp } op with
+    | .ok s' => ({ m := s'.m, sp := s'.sp }, line word s'.m (ret s') word s'.sp)
+    | x => (s, line (resName x) s.m "-" word sp')
+
 /-- destroy everything that is alive (the `end` op): heads in creation order, each list front to back -/
 def cleanupList (m : Store) : Nat → Option Nat → Res Store
   | _, none => .ok m
@@ -134,85 +148,69 @@ def step (s : St) (w : List String) : St × String :=
     if okWord nm ∧ okWord v then
       let name := parseName nm
       let val : Val := if v = "-" then none else some v
-      let a := s.m.alloc name val
-      let sp' := s.sp.new name val
-      ({ m := a.1, sp := sp' }, line "ok" a.1 (toString a.2) "ok" sp')
+      viaRun s (.new name val) (some ((specOf s).new name val)) (fun _ => toString s.m.nodes.length)
     else (s, "bad-op")
   | ["n", "new", nm, v] =>
     if okWord nm ∧ okWord v then
       let name := parseName nm
       let val : Val := if v = "-" then none else some v
-      let a := s.m.alloc name val
-      let sp' := s.sp.new name val
-      ({ m := a.1, sp := sp' }, line "ok" a.1 (toString a.2) "ok" sp')
+      viaRun s (.new name val) (some ((specOf s).new name val)) (fun _ => toString s.m.nodes.length)
     else (s, "bad-op")
   | ["n", "after", p, x] =>
     match tok s p, tok s x with
     | some p, some x =>
-      match s.sp.after p x with
-      | none => precond s
-      | some sp' => finish s (s.m.gnodeAfter (some p) x) sp'
+      viaRun s (.after p x) ((specOf s).after p x) (fun _ => "ptr")
     | _, _ => (s, "bad-op")
   | ["n", "before", p, x] =>
     match tok s p, tok s x with
     | some p, some x =>
-      match s.sp.before p x with
-      | none => precond s
-      | some sp' => finish s (s.m.gnodeBefore (some p) x) sp'
+      viaRun s (.before p x) ((specOf s).before p x) (fun _ => "ptr")
     | _, _ => (s, "bad-op")
   | "n" :: "add" :: f :: pos :: x :: rest =>
     if rest ≠ [] ∧ rest ≠ ["byname"] then (s, "bad-op") else
     match tok s f, parseInt pos, tok s x with
     | some f, some pos, some x =>
       let byName := rest = ["byname"]
-      match s.sp.add f pos x byName with
-      | none => precond s
-      | some sp' => finish s (s.m.add f pos x byName) sp'
+      viaRun s (.add f pos x byName) ((specOf s).add f pos x byName) (fun _ => "ptr")
     | _, _, _ => (s, "bad-op")
   | "n" :: "insert" :: p :: pos :: x :: rest =>
     if rest ≠ [] ∧ rest ≠ ["byname"] then (s, "bad-op") else
     match tok s p, parseInt pos, tok s x with
     | some p, some pos, some x =>
       let byName := rest = ["byname"]
-      match s.sp.insert p pos x byName with
-      | none => precond s
-      | some sp' => finish s (s.m.insert p pos x byName) sp' "0"
+      viaRun s (.insert p pos x byName) ((specOf s).insert p pos x byName) (fun _ => "0")
     | _, _, _ => (s, "bad-op")
   | ["n", "unlink", x] =>
     match tok s x with
     | some x =>
-      match s.sp.unlink x with
-      | none => precond s
-      | some sp' => finish s ((s.m.unlink x).bind fun r => .ok r.1) sp'
+      viaRun s (.unlink x) ((specOf s).unlink x) (fun _ => "ptr")
     | none => (s, "bad-op")
   | ["n", "move", a, b] =>
     match tok s a, tok s b with
     | some a, some b =>
-      match s.sp.move a b with
-      | none => precond s
+      -- the caller's list reference afterwards (a variable of the caller, not part of the store): the first
+      -- element that stayed, as the specification's merge says
+      let frm := match s.sp.sibsOf? a, s.sp.sibsOf? b with
+        | some (l, i), some (dl, d) =>
+          match headId (Forest.merge (l.drop i) dl d).1 with
+          | some h => toString h
+          | none => "null"
+        | _, _ => "?"
+      match (specOf s).move a b with
       | some (sp', _) =>
-        -- the list reference is the parent's child link when the node is a first child, a local otherwise
-        let slot : Res Store.Slot := do
-          let an ← s.m.get a
-          match an.parent with
-          | none => pure Store.Slot.loc
-          | some p => do
-            let pn ← s.m.get p
-            pure (if pn.children = some a then Store.Slot.kids p else Store.Slot.loc)
-        match slot with
-        | .ok slot =>
-          -- the caller's list reference afterwards (a variable of the caller, not part of the store): the first
-          -- element that stayed, as the specification's merge says
-          let frm := match s.sp.sibsOf? a, s.sp.sibsOf? b with
-            | some (l, i), some (dl, d) =>
-              match headId (Forest.merge (l.drop i) dl d).1 with
-              | some h => toString h
-              | none => "null"
-            | _, _ => "?"
-          match s.m.move s.m.fuel slot (some a) b with
-          | .ok r => ({ m := r.1, sp := sp' }, line s!"ok:from={frm}" r.1 (toString r.2) s!"ok:from={frm}" sp')
-          | x => (s, line (resName x) s.m "-" s!"ok:from={frm}" sp')
-        | x => (s, line (resName x) s.m "-" "ok" sp')
+        -- different top-level structures: the case of `history_wf`
+        viaRun s (.move a b) (some sp') (fun s' => toString s'.ret) s!"ok:from={frm}"
+      | none =>
+        -- inside one structure (two sibling lists none of which lies in the other's moving part): run only
+        match s.sp.moveSame a b with
+        | none => precond s
+        | some (sp', _) =>
+          match slotOf s.m a with
+          | .ok slot =>
+            match s.m.move s.m.fuel slot (some a) b with
+            | .ok r => ({ m := r.1, sp := sp' }, line s!"ok:from={frm}" r.1 (toString r.2) s!"ok:from={frm}" sp')
+            | x => (s, line (resName x) s.m "-" s!"ok:from={frm}" sp')
+          | x => (s, line (resName x) s.m "-" "ok" sp')
     | _, _ => (s, "bad-op")
   | ["n", "swap", a, b] =>
     match tok s a, tok s b with
@@ -247,7 +245,7 @@ def step (s : St) (w : List String) : St × String :=
     | some x =>
       let mode := if rest = [] then 0 else if rest = ["tree"] then 1 else 2
       let s0 := { s with failAt := 0 }
-      match s.sp.clone x mode, s.sp.sibsOf? x with
+      match (specOf s).clone x mode, s.sp.sibsOf? x with
       | some sp', some (l, i) =>
         let src : Forest := match l[i]? with
           | some t => if mode = 0 then [.node t.id t.name t.value []] else if mode = 1 then [t] else l.drop i
@@ -257,29 +255,26 @@ def step (s : St) (w : List String) : St × String :=
           -- an allocation fails: the call is refused, everything it had built is released again
           (s0, line "refused" s.m s!"null mallocs={s.failAt}" "refused" s.sp)
         else
-          let r : Res Store :=
-            if mode = 0 then (s.m.nodeClone x).bind fun r => .ok r.1
-            else if mode = 1 then (s.m.treeClone x).bind fun r => .ok r.1
-            else (s.m.listClone s.m.fuel (some x)).bind fun r => .ok r.1
-          finish s0 r sp' s!"{s.m.nodes.length} mallocs={total}"
+          viaRun s0 (.clone x mode) (some sp') (fun _ => s!"{s.m.nodes.length} mallocs={total}")
       | _, _ => precond s0
     | none => (s, "bad-op")
   | ["n", "clear", x] =>
     match tok s x with
     | some x =>
-      match s.sp.clear x with
-      | none => precond s
-      | some sp' => finish s (s.m.clear s.m.fuel x) sp' "-"
+      viaRun s (.clear x) ((specOf s).clear x) (fun _ => "-")
     | none => (s, "bad-op")
   | ["n", "destroy", x] =>
     match tok s x with
     | some x =>
-      match s.m.destroy s.m.fuel x with
-      | .ok (m', done) =>
-        match s.sp.destroy x with
-        | some sp' => ({ m := m', sp := sp' }, line (if done then "ok" else "refused") m' (if done then "null" else "node") "ok" sp')
-        | none => ({ s with m := m' }, line (if done then "ok" else "refused") m' (if done then "null" else "node") "refused" s.sp)
-      | r => (s, line (resName r) s.m "-" "*" s.sp)
+      match (specOf s).destroy x with
+      | some sp' =>
+        -- a detached root: through `runOp`
+        viaRun s (.destroy x) (some sp') (fun _ => "null")
+      | none =>
+        -- linked: the call is made and must be refused
+        match s.m.destroy s.m.fuel x with
+        | .ok (m', done) => ({ s with m := m' }, line (if done then "ok" else "refused") m' (if done then "null" else "node") "refused" s.sp)
+        | r => (s, line (resName r) s.m "-" "refused" s.sp)
     | none => (s, "bad-op")
   | ["n", "locate", f, pos, nm] =>
     match tok s f, parseInt pos with
